@@ -70,10 +70,12 @@ func init() {
 		Property: "C13",
 		Parts: []simkit.Part{
 			{Name: "clisim-c13-apply", Fn: clisim.C13Apply, ProcessLevel: true, NeedsCLI: true, Runs: map[string]int{"quick": 900, "thorough": 30000}},
+			{Name: "clisim-c13-schema", Fn: clisim.C13Schema, ProcessLevel: true, NeedsCLI: true, Runs: map[string]int{"quick": 300, "thorough": 8000}},
+			{Name: "clisim-c13-dryrun", Fn: clisim.C13Dry, ProcessLevel: true, NeedsCLI: true, Runs: map[string]int{"quick": 400, "thorough": 10000}},
 		},
-		Rule:           "apply part: generated directory (1-4 files x 1-4 statements, real DDL mixed in) with at most one statement that fails at execution time at a drawn (file, statement), global --tx-mode stratified over the run index x per-file atlas:txmode directives x optional count argument x optional earlier clean apply; then fix + re-hash + re-run; distinct = distinct trace hash among runs that executed at least one apply",
-		RequiredProbes: []string{"partial-prefix-recorded", "rolled-back-after-progress"},
-		RequiredFaults: []string{"statement-failure-or-directive-conflict"},
+		Rule:           "apply part: generated directory (1-4 files x 1-4 statements, real DDL mixed in) with at most one statement that fails at execution time at a drawn (file, statement), global --tx-mode stratified over the run index x per-file atlas:txmode directives x optional count argument x optional earlier clean apply; then fix + re-hash + re-run. schema part: initial schema applied by the CLI, rows with duplicates/NULLs/negatives inserted, desired schema = one drawn change per table of which at most one cannot succeed on the data (UNIQUE on duplicates, NOT NULL on NULLs, violated CHECK), --dry-run then default mode then --tx-mode none as reach probe. dry-run part: migrate apply --dry-run on fresh / initialised / dirty databases x count x tx-mode x --baseline / --allow-dirty. distinct = distinct trace hash among runs that executed at least one apply",
+		RequiredProbes: []string{"partial-prefix-recorded", "rolled-back-after-progress", "plan-failed-after-progress", "dry-run:fresh:baseline", "dry-run:dirty:baseline", "dry-run:initialised:plain", "dry-run:dirty:allow-dirty"},
+		RequiredFaults: []string{"statement-failure-or-directive-conflict", "dry-run", "plan-fails-on-data/unique-on-duplicates", "plan-fails-on-data/not-null-on-nulls", "plan-fails-on-data/check-violated-by-rows"},
 		Real:           []string{"the whole CLI binary (cmdapi tx multiplexer, dry-run wrappers, Executor, ent revision store, SQLite driver)", "SQLite engine and files"},
 		Stub:           []string{"none (independent mattn/go-sqlite3 observer)"},
 		Assumptions: []string{
